@@ -1,4 +1,5 @@
 import Proofs.Producer
+import Proofs.CrashBatch
 
 /-!
 # C01 — the sequencer node only ever commits a valid, hash-linked, signed chain
@@ -117,6 +118,46 @@ theorem C01_txs_from_batch (c : Cfg) (st : State) (h : Nat) (ls : Sig) (lhh : By
     (createBlock c st h ls lhh txs ts).1.hdr.dataHash =
       (if txs.isEmpty then emptyDataHash else ({ txs := txs } : Data).daCommitment) := by
   simp [createBlock]
+
+/-- **Every committed block is the block of one batch of the run — its transactions, in order, and its timestamp.**
+For every run from a fresh start over any response list `rs` there is an index function `f` such that every height
+`h` above the initial height and at most the chain height holds a block whose transactions are exactly the
+transactions of the batch answered at position `f h` of `rs` (same list, same order) and whose header time is that
+batch's timestamp; `f` is strictly increasing in `h` (batches are consumed in order, none twice).  This includes
+blocks committed through "using pending block" after execution failures: the batch of such a block is the one taken
+when it was first built (`Proofs/CrashBatch.lean`: a ghost history kept in the proof, the model is unchanged; the
+version over histories with crashes and restarts is `Spec.C04.C04_blocks_are_their_batches`).  The block at the
+initial height is the genesis block `NewManager` saved: no transactions, genesis time — it consumes no batch. -/
+theorem C01_blocks_are_their_batches (c : Cfg) (hpos : 1 ≤ c.initialHeight) (rs : List (SeqResp × ExecResp)) :
+    ∃ f : Nat → Nat,
+      (∀ h, c.initialHeight < h → h ≤ (run c (freshNode c) rs).store.height →
+        ∃ b txs ts bd e, (run c (freshNode c) rs).store.getBlock h = some b ∧
+          rs[f h]? = some (.batch txs ts bd, e) ∧ b.data.txs = txs ∧ b.sh.hdr.time = ts) ∧
+      (∀ h h', c.initialHeight < h → h < h' → h' ≤ (run c (freshNode c) rs).store.height → f h < f h') ∧
+      (c.initialHeight ≤ (run c (freshNode c) rs).store.height →
+        ∃ b, (run c (freshNode c) rs).store.getBlock c.initialHeight = some b ∧ b.data.txs = [] ∧
+          b.sh.hdr.time = c.genesisTime) := by
+  obtain ⟨σ, f, hr, hg, hs⟩ := runOps_src (good_init c hpos) (src_init c (fun _ => 0)) (rs.map fun r => Op.step r.1 r.2)
+  obtain ⟨σ', hr', hnode⟩ := runOps_steps c (initSt c) rs
+  rw [hr] at hr'
+  cases hr'
+  have hnode' : σ.node = run c (freshNode c) rs := hnode
+  rw [← hnode']
+  obtain ⟨hn, hn0⟩ := hs.node hg
+  have hi := hg.inv
+  refine ⟨f, fun h h1 h2 => ?_, fun h h' h1 h2 h3 => ?_, fun h1 => ?_⟩
+  · obtain ⟨b, hb, _⟩ := hi.chain h (by omega) h2
+    obtain ⟨txs, bd, e, hop, htx⟩ := hn h b h1 hb
+    simp only [List.nil_append, List.getElem?_map, Option.map_eq_some_iff] at hop
+    obtain ⟨r, hr1, hr2⟩ := hop
+    simp only [Op.step.injEq] at hr2
+    refine ⟨b, txs, b.sh.hdr.time, bd, e, hb, ?_, htx, rfl⟩
+    rw [hr1, ← hr2.1, ← hr2.2]
+  · obtain ⟨b, hb, _⟩ := hi.chain h' (by omega) h3
+    exact hs.mono h h' h1 h2 (by rw [hb]; simp)
+  · obtain ⟨b, hb, _⟩ := hi.chain c.initialHeight (Nat.le_refl _) h1
+    obtain ⟨g1, g2⟩ := hn0 b hb
+    exact ⟨b, hb, g1, g2⟩
 
 /-! ## Liveness: "nor does any such sequence leave it permanently unable to produce blocks" -/
 
